@@ -535,6 +535,14 @@ func (a *Analyzer) Feed(r *ev.Rec) {
 		}
 	case "harness-error":
 		a.rep.Inconclusive = append(a.rep.Inconclusive, "harness error: "+r.Err)
+	case "remote-info":
+		a.stat("remote-status-reports:" + r.Kind)
+		if r.Kind == "equal" && r.Cnt > 0 {
+			a.stat("remote-status-reports-with-followers")
+		}
+		if r.Kind == "differs" {
+			a.find("C18", "status-report-differs-over-the-wire", "", r.Q, "the status of node %d/%d obtained through the remote client differs from the in-process report (which did not change meanwhile): %s", r.Cid, r.Nid, r.Note)
+		}
 	case "wire-truncated":
 		a.stat("bursts-cut-in-the-middle")
 		a.wireQ = nil // the requests announced last did not arrive whole
